@@ -57,16 +57,16 @@ func (t AttTrace) Content() string {
 }
 
 type AttTx struct {
-	Idx      uint64
-	Hashes   map[string]bool     // every transaction hash some response gives this tx
-	Body     map[string]string   // from a full block (nil if none)
-	Rcpts    []map[string]string // every receipt naming this tx
+	Idx    uint64
+	Hashes map[string]bool     // every transaction hash some response gives this tx
+	Body   map[string]string   // from a full block (nil if none)
+	Rcpts  []map[string]string // every receipt naming this tx
 	// RcptAmbiguous: several different receipts name this tx, or a receipt and a log
 	// nested in it disagree about the tx: the statement does not say which wins.
 	RcptAmbiguous bool
-	RcptLogs []AttLog            // logs of those receipts (and nested logs naming this tx), response order
-	Logs     map[uint64][]AttLog // eth_getLogs logs by logIndex (several if the responses conflict)
-	Traces   []AttTrace          // response order
+	RcptLogs      []AttLog            // logs of those receipts (and nested logs naming this tx), response order
+	Logs          map[uint64][]AttLog // eth_getLogs logs by logIndex (several if the responses conflict)
+	Traces        []AttTrace          // response order
 }
 
 type AttBlock struct {
@@ -199,6 +199,28 @@ func attJSONUint(v any) (uint64, bool) {
 	return x, true
 }
 
+// attPos is the position class of element k among n (keys stay value-independent).
+func attPos(k, n int) string {
+	switch {
+	case n <= 1:
+		return "only"
+	case k == 0:
+		return "first"
+	case k == n-1:
+		return "last"
+	}
+	return "middle"
+}
+
+// attItemPos: receipts and traces arrive as one list per block, so the position
+// of an item in its list is part of the (value-independent) reason.
+func attItemPos(i int) string {
+	if i == 0 {
+		return "-first"
+	}
+	return "-later"
+}
+
 func attMethod(kind string, elem int) string {
 	switch kind {
 	case "blocks", "headers":
@@ -317,7 +339,7 @@ func (v *AttVerdict) exchange(ex AttExchange) {
 			if k >= want {
 				continue // surplus element: contributes nothing
 			}
-			b := v.blockElem(method, res, ex.Asked[k], ex.Kind == "blocks")
+			b := v.blockElem(method, res, ex.Asked[k], ex.Kind == "blocks", attPos(k, want))
 			if b != nil && prev != nil && b.Parent != prev.Hash {
 				v.must(method, "broken-parent-link")
 			}
@@ -354,7 +376,7 @@ func (v *AttVerdict) exchange(ex AttExchange) {
 	}
 }
 
-func (v *AttVerdict) blockElem(method string, res any, asked uint64, full bool) *AttBlock {
+func (v *AttVerdict) blockElem(method string, res any, asked uint64, full bool, pos string) *AttBlock {
 	r, ok := res.(map[string]any)
 	if !ok {
 		v.must(method, "undecodable")
@@ -369,13 +391,13 @@ func (v *AttVerdict) blockElem(method string, res any, asked uint64, full bool) 
 		return nil
 	}
 	if num != asked {
-		v.must(method, "wrong-number")
+		v.must(method, "wrong-number-"+pos)
 		// still usable for the parent-link check of its neighbours
 		return &AttBlock{Num: num, Hash: hash, Parent: parent}
 	}
 	b := v.block(num)
 	if b == nil {
-		v.must(method, "wrong-number")
+		v.must(method, "wrong-number-"+pos)
 		return nil
 	}
 	b.HasHeader, b.Hash, b.Parent, b.Time = true, hash, parent, tm
@@ -430,7 +452,7 @@ func (v *AttVerdict) blockElem(method string, res any, asked uint64, full bool) 
 }
 
 // item header shared by receipts, logs and traces: the block and tx it names.
-func (v *AttVerdict) named(method string, it map[string]any, trace bool) (b *AttBlock, txi uint64, ok bool) {
+func (v *AttVerdict) named(method string, it map[string]any, trace bool, pos string) (b *AttBlock, txi uint64, ok bool) {
 	var num uint64
 	var ok1, ok2 bool
 	if trace {
@@ -447,7 +469,7 @@ func (v *AttVerdict) named(method string, it map[string]any, trace bool) (b *Att
 	}
 	b = v.block(num)
 	if b == nil {
-		v.must(method, "item-out-of-range")
+		v.must(method, "item-out-of-range"+pos)
 		return nil, 0, false
 	}
 	if b.HasHeader && bh != b.Hash {
@@ -490,13 +512,13 @@ func (v *AttVerdict) receiptsElem(method string, res any, asked uint64, askedKno
 		v.must(method, "undecodable")
 		return
 	}
-	for _, x := range arr {
+	for xi, x := range arr {
 		it, ok := x.(map[string]any)
 		if !ok {
 			v.must(method, "undecodable")
 			continue
 		}
-		b, txi, ok := v.named(method, it, false)
+		b, txi, ok := v.named(method, it, false, attItemPos(xi))
 		if !ok {
 			continue
 		}
@@ -599,7 +621,7 @@ func (v *AttVerdict) logsElem(method string, res any) {
 			v.must(method, "undecodable")
 			continue
 		}
-		b, txi, ok := v.named(method, it, false)
+		b, txi, ok := v.named(method, it, false, "")
 		if !ok {
 			continue
 		}
@@ -627,7 +649,7 @@ func (v *AttVerdict) traceElem(method string, res any, asked uint64, askedKnown 
 	if len(arr) == 0 {
 		v.note(method, "empty-trace-result")
 	}
-	for _, x := range arr {
+	for xi, x := range arr {
 		it, ok := x.(map[string]any)
 		if !ok {
 			v.must(method, "undecodable")
@@ -649,7 +671,7 @@ func (v *AttVerdict) traceElem(method string, res any, asked uint64, askedKnown 
 			v.must(method, "undecodable")
 			continue
 		}
-		b, txi, ok := v.named(method, it, true)
+		b, txi, ok := v.named(method, it, true, attItemPos(xi))
 		if !ok {
 			continue
 		}
